@@ -228,9 +228,13 @@ func NewFullRT(h host.Host, protocolPrefix protocol.ID, options ...Option) (*Ful
 
 	var bsPeers []*peer.AddrInfo
 
-	for _, ai := range dhtcfg.BootstrapPeers() {
-		tmpai := ai
-		bsPeers = append(bsPeers, &tmpai)
+	// BootstrapPeers is nil unless the caller passed the BootstrapPeers or
+	// BootstrapPeersFunc option: the config is built by hand, not from Defaults.
+	if dhtcfg.BootstrapPeers != nil {
+		for _, ai := range dhtcfg.BootstrapPeers() {
+			tmpai := ai
+			bsPeers = append(bsPeers, &tmpai)
+		}
 	}
 
 	rt := &FullRT{
